@@ -2,6 +2,7 @@
 import random, os, json, multiprocessing as mp
 from fractions import Fraction as F
 from ..common import Result, OUT, scratch, run_tlc, Machinery, tlc_error_excerpt, rat, quiet
+from ..common import fork_pool
 from .. import domains as D
 from . import elect as EL
 from . import c02
@@ -215,7 +216,7 @@ def run(tier, seed, replay=None):
         if tier == "quick":
             elects = elects[::2]
     res.evaluations = len(calls) + len(elects)
-    with mp.get_context("fork").Pool(16) as pool:
+    with fork_pool(16) as pool:
         traces = [t for ts in pool.imap_unordered(call_work, calls, chunksize=8) for t in ts]
     traces.sort(key=lambda t: json.dumps({k: v for k, v in t.items() if not k.startswith("_")}, sort_keys=True))
     for t in traces:
